@@ -86,9 +86,9 @@ claim("C05", "DESIGN.md §5 C05",
 claim("C07", "DESIGN.md §5 C07",
       "Lean 4 theorems (feasible <-> indicator of per-vehicle walks with absorbing depot, both directions, at the level of the model's MPData; representability; objective = move costs + surcharges; strict arcs imply time feasibility by induction along the walk; decoder returns the walks) + correspondence and exhaustive comparison with an independent walk enumeration",
       "Proved for every graph, V, L >= 3, strict or not: a binary vector satisfies all linear and quadratic constraints iff it is the indicator of walks that start/end at the depot, move along arcs, never leave the depot again and visit every customer once; every such assignment is representable; "
-      "the objective equals the summed move costs plus per-move surcharges; the strict constructor establishes (and later calls keep) the strict arc rule, under which every walk meets all time windows; the operational decoder (sort + pops) returns the walks. "
+      "the objective equals the summed move costs plus per-move surcharges; the strict arc rule holds after EVERY call history on a strict object (strictArcs_reachable; set_depot re-checks the stored arcs since fix cc21dba), and under it every walk meets all time windows (clock from the depot's opening); the depot self-loop (time 0, cost 0) that the theorems use is established for every API-reachable object — constructor, setters, graph calls that do not overwrite it, successful heuristics (Props/C07c: apiReach_facts) — and the main theorems are restated without that hypothesis (…_api); the operational decoder (sort + pops) returns the walks. "
       "Data, decoding and objective are compared with the code on every walk assignment of generated instances; all 2^n vectors for n <= 13.",
-      "L >= 3, at least one node, depot self-arc present, depot window start >= 0 and self-arc time 0 for the strict-timing theorem.")
+      "L >= 3 and at least one node (both in the property text); a caller who overwrites the depot self-arc with add_arc(D, D, …) gets that arc (documented behaviour, outside the _api theorems).")
 claim("C08", "DESIGN.md §5 C08, §11",
       "Lean 4 composition theorems: path-based solutions = partitions into pool routes (all routes => reference), arc-based on a complete grid = reference partitions (both directions, via the decoder and representability theorems), non-strict sequence <= reference, strict sequence >= reference, default-penalty QUBO minima = constrained optima (C04) + exhaustive optimisation of the four real models against an independent optimiser",
       "Proved on the model, cost-preservingly: path-based feasible vectors are exactly the partitions into pool routes, so with all valid routes enumerated the achievable costs are those of the reference problem — also end to end for the pool BUILT by offering routes to add_route on a fixed graph (Props/C08c: poolValid_offer, offer_routes_iff_valid, path_offer_all_eq_reference, path_offer_exhaustive_eq_reference: no pool hypothesis left); "
